@@ -382,12 +382,20 @@ def _box_worker(case):
             tc = (com - np.asarray(g.origin, float)) @ np.linalg.inv(axes)
             mid = 0.5 * (t.max(axis=0) + t.min(axis=0))
             rcls = "com=midpoint" if float(np.max(np.abs(mid - tc))) * float(sp) < 1e-9 else "com!=midpoint"
+            # the eigenvector matrix of the inertia tensor enters the result twice (projection of the
+            # nuclei, axes of the grid); the two uses agree only when it is symmetric
+            fcls = "axes-symmetric" if np.allclose(frame, frame.T, atol=1e-9) else "axes-not-symmetric"
             if gmargin < need - BOX_SLACK:
-                out.append((f"from_molecule:rotate:enclosure:{rcls}:{key}",
+                out.append((f"from_molecule:rotate:enclosure:{fcls}:{rcls}:{key}",
                             f"from_molecule(rotate=True) {key}: a nucleus is {gmargin:.6g} from the box boundary "
                             f"(negative = outside); required margin {need:.6g}", {**info, "observed_margin": gmargin}))
     except Exception as e:
-        out.append((f"from_molecule:rotate:raises:{key}", f"from_molecule(rotate=True) {key} raised {type(e).__name__}: {e}", info))
+        # in the rotated frame the extent of a linear / planar molecule can vanish: fewer than two
+        # points in a direction is rejected by the constructor as documented (inadmissible input)
+        if not (isinstance(e, ValueError) and ("greater than one" in str(e) or "should be positive" in str(e))):
+            out.append((f"from_molecule:rotate:raises:{key}", f"from_molecule(rotate=True) {key} raised {type(e).__name__}: {e}", info))
+        else:
+            stats["box_rotate_rejected"] = 1.0
     return out, stats, (len(zs), cls)
 
 
@@ -416,16 +424,439 @@ def _family_box(rep: Report, tier: str, wd: Path):
 
 
 # --------------------------------------------------------------------------------------------
+# family 4: closest_point
+
+NOTREC = -1000000
+
+
+def _family_closest(rep: Report, tier: str, wd: Path):
+    from grid.cubic import UniformGrid
+    consts = {"Fine": 4 if tier == "quick" else 8}
+    _obs_module(wd, "Obs_closest", "ClosestObs", None)
+    cases, _ = _emit("MC_CubicClosest", wd, consts, "cases_closest.json")
+    obs, n = [], 0
+    for gi, c in enumerate(cases, 1):
+        dim = len(c["shape"])
+        sign = "step<0" if min(c["step"]) < 0 else "step>0"
+        gkey = f"{sign}:shape={c['shape']}:origin={c['origin']}:steps={c['step']}"
+        rows = []
+        try:
+            g = UniformGrid(np.array(c["origin"], float), np.diag(np.array(c["step"], float)), np.array(c["shape"], int))
+        except Exception as e:
+            rep.violation(f"closest_point:construct:{gkey}", f"UniformGrid {gkey} raised {type(e).__name__}: {e}")
+            obs.append([[NOTREC, NOTREC]] * len(c["queries"]))
+            continue
+        for q in c["queries"]:
+            p = np.array([Fraction(*v) for v in q], float)
+            row = []
+            for which in ("closest", "origin"):
+                try:
+                    row.append(_int(g.closest_point(p, which)))
+                except Exception as e:
+                    row.append(NOTREC)
+                    rep.violation(f"closest_point:{which}:{gkey}:raises",
+                                  f"closest_point({p.tolist()}, {which!r}) on grid {gkey} raised {type(e).__name__}: {e}",
+                                  {"grid": c["shape"], "origin": c["origin"], "steps": c["step"], "point": p.tolist()})
+            rows.append(row)
+            n += 2
+        obs.append(rows)
+        rep.evaluated(2 * len(rows), ("closest", gi))
+    rep.sample({"family": "closest_point", "grid": {k: cases[2][k] for k in ("shape", "origin", "step")},
+                "query": cases[2]["queries"][7], "observed[closest,origin]": obs[2][7]})
+    with open(wd / "obs_closest.json", "w") as f:
+        json.dump(obs, f)
+    _obs_module(wd, "Obs_closest", "ClosestObs", "obs_closest.json")
+    cfg = _cfg(wd, "MC_CubicClosest.cfg", {**consts, "Emit": False},
+               ["QueriesAreInside", "RoundingFindsNearest", "FlooringFindsCorner", "TiesAreHalves", "JudgeClosest", "JudgeCorner"])
+    res = tlc.run_tlc("MC_CubicClosest", cfg, wd, workers=16, timeout=1500).require_ok("MC_CubicClosest")
+    rep.tlc(res, "MC_CubicClosest")
+    _model_violation(rep, res, "closest")
+    for t in _tagged(res.stdout, "MISMATCH"):
+        _, gi, which, p, want, got = t
+        c = cases[gi - 1]
+        sign = "step<0" if min(c["step"]) < 0 else "step>0"
+        pt = [float(Fraction(*v)) for v in p]
+        rep.violation(f"closest_point:{which}:{sign}:shape={c['shape']}:origin={c['origin']}:steps={c['step']}:point={pt}",
+                      f"closest_point({pt}, {which!r}) on UniformGrid(origin={c['origin']}, axes=diag{tuple(c['step'])}, shape={c['shape']}) "
+                      f"returned index {got}; " + ("that is not a nearest node" if which == "closest" else "that is not the lower corner of the cell")
+                      + f" (the specification's rounding rule gives {want})",
+                      {"shape": c["shape"], "origin": c["origin"], "steps": c["step"], "point": pt, "which": which, "spec": want, "observed": got})
+    return n
+
+
+# --------------------------------------------------------------------------------------------
+# family 5: cube files
+
+GEOM_ATOL = 5.01e-7      # "{:11.6f}": half a unit of the sixth decimal
+DATA_RTOL = 5.01e-6      # "{:12.5E}": half a unit of the sixth significant digit
+UNIT_RTOL = 1e-8         # angstrom factor: spec constant truncated to 8 digits (2e-10), CODATA revisions differ by 7e-10
+
+
+def _cube_close(got, want, atol=0.0, rtol=0.0):
+    got, want = np.asarray(got, float), np.asarray(want, float)
+    if got.shape != want.shape:
+        return False, float("inf")
+    err = np.abs(got - want)
+    tol = atol + rtol * np.abs(want)
+    bad = err > tol
+    return (not bool(np.any(bad))), float(np.max(err / np.where(tol > 0, tol, 1.0))) if err.size else 0.0
+
+
+def _family_cube(rep: Report, tier: str, wd: Path):
+    from grid.cubic import UniformGrid
+    consts = {"MaxN": 40 if tier == "quick" else 130}
+    _obs_module(wd, "Obs_cube", "CubeObs", None)
+    emitted, _ = _emit("MC_CubicCube", wd, consts, "cases_cube.json")
+    factor = float(evaluate(emitted["angstrom_to_bohr"], {}, "mp"))
+    rng = np.random.default_rng(rep.seed)
+    obs, n = [], 0
+    files = wd / "cube"
+    files.mkdir(exist_ok=True)
+    for ci, c in enumerate(emitted["cases"], 1):
+        shape, natom = c["shape"], c["natom"]
+        npts = int(np.prod(shape))
+        for printable in (True, False):
+            kind = "printable" if printable else "arbitrary"
+            key = f"cube:shape={'x'.join(map(str, shape))}:natom={natom}:{kind}"
+            n += 1
+            rep.evaluated(1, ("cube", npts % 6, kind))
+            origin = rng.uniform(-5, 5, 3)
+            axes = np.diag(rng.uniform(0.1, 0.9, 3)) + rng.uniform(-0.05, 0.05, (3, 3))
+            atcoords = rng.uniform(-4, 4, (natom, 3))
+            atnums = rng.integers(1, 30, natom)
+            pseudo = (atnums - rng.integers(0, 2, natom) * 0.5).astype(float) if ci % 2 else None
+            mant = rng.integers(100000, 1000000, npts) * rng.choice([-1, 1], npts)
+            expo = rng.integers(-120, 121, npts) if ci % 3 == 0 else rng.integers(-6, 7, npts)
+            if printable:
+                origin, axes, atcoords = (np.round(a, 6) for a in (origin, axes, atcoords))
+                data = np.array([float(f"{int(m)}E{int(e) - 5}") for m, e in zip(mant, expo)])
+            else:
+                data = mant * (10.0 ** (expo - 5.0)) * rng.uniform(0.999, 1.001, npts)
+            data[0] = 0.0
+            fname = str(files / f"case{ci}_{kind}.cube")
+            try:
+                g = UniformGrid(origin, axes, np.array(shape, int))
+                g.generate_cube(fname, data, atcoords, atnums, pseudo_numbers=pseudo)
+                with open(fname) as f:
+                    lines = f.read().splitlines()
+                obs.append({"shape": shape, "natom": natom, "counts": [len(x.split()) for x in lines[2:]]})
+            except Exception as e:
+                rep.violation(f"{key}:write", f"generate_cube raised {type(e).__name__}: {e}", {"shape": shape, "natom": natom})
+                continue
+            want_pseudo = atnums.astype(float) if pseudo is None else pseudo
+            gt, dt = (0.0, 0.0) if printable else (GEOM_ATOL, DATA_RTOL)
+
+            def printed(a):     # the numbers as they stand in the file (six decimals)
+                a = np.asarray(a, float)
+                return np.array([float(f"{v:.6f}") for v in a.ravel()]).reshape(a.shape)
+
+            def compare(tag, g2, cube, scale):
+                checks = [("shape", np.asarray(g2.shape), np.asarray(shape), 0.0, 0.0)]
+                if scale == 1.0:
+                    checks += [("origin", g2.origin, origin, gt, 0.0), ("axes", g2.axes, axes, gt, 0.0)]
+                else:   # printed numbers times the factor of the specification
+                    checks += [("origin", g2.origin, printed(origin) * scale, 0.0, UNIT_RTOL),
+                               ("axes", g2.axes, printed(axes) * scale, 0.0, UNIT_RTOL)]
+                if cube is not None:
+                    checks += [("atnums", cube["atnums"], atnums, 0.0, 0.0),
+                               ("atcorenums", cube["atcorenums"], want_pseudo, gt, 0.0),
+                               ("data", cube["data"], data, 0.0, dt)]
+                    checks += [("atcoords", cube["atcoords"], atcoords, gt, 0.0)] if scale == 1.0 else \
+                              [("atcoords", cube["atcoords"], printed(atcoords) * scale, 0.0, UNIT_RTOL)]
+                for what, got, want, atol, rtol in checks:
+                    ok, worst = _cube_close(got, want, atol, rtol)
+                    if not ok:
+                        rep.violation(f"{key}:{tag}:{what}",
+                                      f"{tag}: {what} read back {np.asarray(got).ravel()[:6].tolist()}..., written "
+                                      f"{np.asarray(want).ravel()[:6].tolist()}... (tolerance atol={atol} rtol={rtol})",
+                                      {"shape": shape, "natom": natom, "kind": kind, "file": fname})
+
+            try:
+                g2, cube = UniformGrid.from_cube(fname, return_data=True)
+                compare("bohr", g2, cube, 1.0)
+                compare("bohr:grid-only", UniformGrid.from_cube(fname), None, 1.0)
+                if not printable:
+                    ok, _ = _cube_close(g2.points, g.points, 5 * GEOM_ATOL * max(shape), 0.0)
+                    if not ok:
+                        rep.violation(f"{key}:bohr:points", "points of the grid read back differ from the written grid")
+            except Exception as e:
+                rep.violation(f"{key}:bohr:read", f"from_cube raised {type(e).__name__}: {e}", {"file": fname})
+            # angstrom convention: the same numbers announced as angstrom by a negative first point count
+            for variant, which in (("n1", (3,)), ("all", (3, 4, 5))):
+                try:
+                    l2 = list(lines)
+                    for li in which:
+                        tok = l2[li].split()
+                        l2[li] = f"{-int(tok[0]):5d} " + " ".join(tok[1:])
+                    f2 = fname.replace(".cube", f"_ang_{variant}.cube")
+                    with open(f2, "w") as f:
+                        f.write("\n".join(l2) + "\n")
+                    import contextlib
+                    import io
+                    with contextlib.redirect_stdout(io.StringIO()):
+                        g3, cube3 = UniformGrid.from_cube(f2, return_data=True)
+                        g4 = UniformGrid.from_cube(f2)
+                    compare(f"angstrom-{variant}", g3, cube3, factor)
+                    compare(f"angstrom-{variant}:grid-only", g4, None, factor)
+                    n += 1
+                except Exception as e:
+                    rep.violation(f"{key}:angstrom-{variant}:read", f"from_cube raised {type(e).__name__}: {e}", {"file": fname})
+    rep.sample({"family": "cube", "case": emitted["cases"][4], "angstrom_to_bohr": factor, "observed_tokens_per_line_tail": obs[-1]["counts"][-3:]})
+    with open(wd / "obs_cube.json", "w") as f:
+        json.dump(obs, f)
+    _obs_module(wd, "Obs_cube", "CubeObs", "obs_cube.json")
+    cfg = _cfg(wd, "MC_CubicCube.cfg", {**consts, "Emit": False},
+               ["ReadOfWriteIsIdentity", "WriterLayout", "ReaderIgnoresChunking", "JudgeFileLayout"])
+    res = tlc.run_tlc("MC_CubicCube", cfg, wd, workers=4, timeout=900).require_ok("MC_CubicCube")
+    rep.tlc(res, "MC_CubicCube")
+    _model_violation(rep, res, "cube")
+    for t in _tagged(res.stdout, "MISMATCH"):
+        _, r, clause, want, got = t
+        o = obs[r - 1]
+        rep.violation(f"cube:shape={'x'.join(map(str, o['shape']))}:natom={o['natom']}:{clause}",
+                      f"cube file for shape {o['shape']} with {o['natom']} atoms: tokens per line {got}, specification {want}",
+                      {"shape": o["shape"], "natom": o["natom"], "spec": want, "observed": got})
+    return n
+
+
+# --------------------------------------------------------------------------------------------
+# family 6: interpolation
+
+EPS = 2.220446049250313e-16
+INTERP_K = 2e-9 / EPS       # |err| <= INTERP_K * eps * scale / h^nu ; measured constant: see module docstring
+LINEAR_RTOL = 1e-12
+
+
+def _build_grid(nodes, uniform):
+    from grid.basegrid import OneDGrid
+    from grid.cubic import Tensor1DGrids, UniformGrid
+    if uniform is not None:
+        origin = np.array([float(Fraction(*q)) for q in uniform["origin"]])
+        step = np.array([float(Fraction(*q)) for q in uniform["step"]])
+        return UniformGrid(origin, np.diag(step), np.array(uniform["shape"], int))
+    oned = [OneDGrid(np.array([float(Fraction(*q)) for q in ax]), np.ones(len(ax))) for ax in nodes]
+    return Tensor1DGrids(*oned)
+
+
+def _tree_on_points(tree, pts, mode="float"):
+    return np.array([float(evaluate(tree, {"x": p[0], "y": p[1], "z": p[2]}, mode)) for p in pts])
+
+
+def _family_interp(rep: Report, tier: str, wd: Path):
+    consts = {"Seed": rep.seed, "NRandom": 6 if tier == "quick" else 40, "NQuery": 3 if tier == "quick" else 4}
+    cfg = _cfg(wd, "MC_CubicInterp.cfg", consts, ["DerivedPartialIsCalculus", "FullDegreePresent"])
+    res = tlc.run_tlc("MC_CubicInterp", cfg, wd, workers=16, timeout=1500).require_ok("MC_CubicInterp")
+    rep.tlc(res, "MC_CubicInterp")
+    _model_violation(rep, res, "interpolation")
+    with open(wd / "cases_interp.json") as f:
+        cases = json.load(f)
+    n = 0
+    ngrid = len(cases["nodes"])
+    for gi in range(ngrid):
+        nodes = cases["nodes"][gi]
+        uniform = cases["uniform"][gi] if gi < len(cases["uniform"]) else None
+        gname = f"uniform{uniform['shape']}" if uniform else "tensor" + str([len(a) for a in nodes])
+        try:
+            g = _build_grid(nodes, uniform)
+        except Exception as e:
+            rep.violation(f"interp:{gname}:construct", f"grid construction raised {type(e).__name__}: {e}")
+            continue
+        fnodes = [[Fraction(*q) for q in ax] for ax in nodes]
+        box = [max(abs(float(ax[0])), abs(float(ax[-1]))) for ax in fnodes]
+        hmin = [min(float(b - a) for a, b in zip(ax, ax[1:])) for ax in fnodes]
+        queries = [[Fraction(*q) for q in pt] for pt in cases["queries"][gi]]
+        qf = np.array([[float(v) for v in pt] for pt in queries])
+        gpts = np.asarray(g.points, float)
+
+        def scale_of(terms):
+            return sum(abs(t[3]) * box[0] ** t[0] * box[1] ** t[1] * box[2] ** t[2] for t in terms) or 1.0
+
+        # ---- cubic, all derivative orders of total order <= 3
+        for pi, poly in enumerate(cases["cubic"]):
+            vals = _tree_on_points(poly["partials"][0]["tree"], gpts)
+            scale = scale_of(poly["terms"])
+            for part in poly["partials"]:
+                nu = part["nu"]
+                want = np.array([float(evaluate(part["tree"], dict(zip("xyz", pt)), "fraction")) for pt in queries])
+                key = f"interp:cubic:{gname}:poly={poly['terms'] if len(poly['terms']) <= 8 else 'dense'}:nu={nu}"
+                n += 1
+                rep.evaluated(1, ("interp", "cubic", gi, tuple(nu)))
+                try:
+                    got = np.asarray(g.interpolate(qf, vals, nu_x=nu[0], nu_y=nu[1], nu_z=nu[2], method="cubic"), float).ravel()
+                    if got.shape != want.shape:
+                        raise ValueError(f"result has shape {got.shape} for {len(qf)} points")
+                except Exception as e:
+                    rep.violation(key + ":raises", f"interpolate(method='cubic', nu={nu}) on {gname} raised {type(e).__name__}: {e}",
+                                  {"grid": gname, "terms": poly["terms"], "nu": nu})
+                    continue
+                hh = hmin[0] ** nu[0] * hmin[1] ** nu[1] * hmin[2] ** nu[2]
+                unit = EPS * scale / hh
+                err = float(np.max(np.abs(got - want)))
+                _stat("interp_cubic_err_over_eps_scale_hnu", err / unit)
+                if not err <= INTERP_K * unit:
+                    i = int(np.argmax(np.abs(got - want)))
+                    rep.violation(key, f"cubic interpolation on {gname} of p = sum c x^i y^j z^k, terms <<i,j,k,c>> = {poly['terms'][:8]}, "
+                                       f"derivative orders {nu}, at {qf[i].tolist()}: specification {want[i]!r}, implementation {got[i]!r} "
+                                       f"(tolerance {INTERP_K * unit:.3g})",
+                                  {"grid": gname, "nodes": nodes, "terms": poly["terms"], "nu": nu, "point": [str(v) for v in queries[i]],
+                                   "spec": want[i], "observed": got[i]})
+        # ---- linear: trilinear functions
+        for poly in cases["linear"]:
+            vals = _tree_on_points(poly["tree"], gpts)
+            want = np.array([float(evaluate(poly["tree"], dict(zip("xyz", pt)), "fraction")) for pt in queries])
+            key = f"interp:linear:{gname}:poly={poly['terms']}"
+            n += 1
+            rep.evaluated(1, ("interp", "linear", gi))
+            try:
+                got = np.asarray(g.interpolate(qf, vals, method="linear"), float).ravel()
+                err = float(np.max(np.abs(got - want))) / scale_of(poly["terms"])
+                _stat("interp_linear_err_over_scale", err)
+                if not err <= LINEAR_RTOL:
+                    rep.violation(key, f"linear interpolation on {gname} of the trilinear function with terms {poly['terms']}: "
+                                       f"specification {want.tolist()}, implementation {got.tolist()}",
+                                  {"grid": gname, "terms": poly["terms"], "points": qf.tolist()})
+            except Exception as e:
+                rep.violation(key + ":raises", f"interpolate(method='linear') on {gname} raised {type(e).__name__}: {e}")
+        # ---- logarithmic variant on f = exp(q), single-variable derivatives
+        for poly in cases["logv"]:
+            vals = _tree_on_points(poly["partials"][0]["tree"], gpts)
+            fmag = math.exp(scale_of(poly["terms"]))
+            for part in poly["partials"]:
+                nu = part["nu"]
+                want = np.array([float(evaluate(part["tree"], dict(zip("xyz", pt)), "mp")) for pt in queries])
+                key = f"interp:log:{gname}:exponent={poly['terms']}:nu={nu}"
+                n += 1
+                rep.evaluated(1, ("interp", "log", gi, tuple(nu)))
+                try:
+                    got = np.array([np.asarray(g.interpolate(qf[i:i + 1], vals, use_log=True, nu_x=nu[0], nu_y=nu[1], nu_z=nu[2]),
+                                               float).ravel()[0] for i in range(len(qf))])
+                except Exception as e:
+                    rep.violation(key + ":raises", f"interpolate(use_log=True, nu={nu}) on {gname} raised {type(e).__name__}: {e}",
+                                  {"grid": gname, "terms": poly["terms"], "nu": nu})
+                    continue
+                hh = hmin[0] ** nu[0] * hmin[1] ** nu[1] * hmin[2] ** nu[2]
+                unit = EPS * fmag / hh
+                err = float(np.max(np.abs(got - want)))
+                _stat("interp_log_err_over_eps_fmag_hnu", err / unit)
+                if not err <= INTERP_K * unit:
+                    i = int(np.argmax(np.abs(got - want)))
+                    rep.violation(key, f"log-variant interpolation on {gname} of f = exp(q), q terms {poly['terms']}, derivative orders {nu}, "
+                                       f"at {qf[i].tolist()}: specification {want[i]!r}, implementation {got[i]!r} (tolerance {INTERP_K * unit:.3g})",
+                                  {"grid": gname, "terms": poly["terms"], "nu": nu, "point": [str(v) for v in queries[i]]})
+    rep.sample({"family": "interpolation", "grid_nodes_x": cases["nodes"][0][0], "query": cases["queries"][0][0],
+                "terms": cases["cubic"][2]["terms"], "nu": cases["cubic"][2]["partials"][7]["nu"]})
+    return n
+
+
+# --------------------------------------------------------------------------------------------
 
 def run(tier: str) -> int:
+    import time
     rep = Report(PROP, tier, "model_checking")
     wd = tlc.scratch(f"{PROP}-{tier}")
-    n = 0
-    n += _family_layout(rep, tier, wd)
-    n += _family_weights(rep, tier, wd)
-    n += _family_box(rep, tier, wd)
+    STATS.clear()
+    n, walls = 0, {}
+    for name, fam in (("layout", _family_layout), ("weights", _family_weights), ("from_molecule", _family_box),
+                      ("closest_point", _family_closest), ("cube", _family_cube), ("interpolation", _family_interp)):
+        t0 = time.time()
+        k = fam(rep, tier, wd)
+        walls[name] = round(time.time() - t0, 1)
+        rep.set(f"cases_{name}", k)
+        n += k
+    rep.set("family_wall_s", walls)
     rep.set("traces_validated_against_impl", n)
     rep.set("exhaustive", True)
-    rep.set("rule", "one case = one grid / call emitted by the specification and replayed into grid.cubic")
+    rep.set("rule", "one case = one grid / call / file emitted by the specification and replayed into grid.cubic; "
+                    "distinct = distinct (family, shape | scheme | molecule class | grid | residue mod 6 | derivative order)")
     rep.set("measured_max_errors", {k: float(f"{v:.3g}") for k, v in sorted(STATS.items())})
+    rep.assume("NumPy semantics of meshgrid/swapaxes/reshape/kron are transcribed in Cubic.tla; the implementation is bound to the "
+               "declarative layout by the recorded observations, not by that transcription")
+    rep.assume("real-valued clauses (weights, box origin, interpolation, cube numbers) are compared by the harness with values "
+               "derived by the specification (exact rationals / expression trees); TLC judges all integer observables")
     return rep.finish()
+
+
+# --------------------------------------------------------------------------------------------
+# sensitivity: textual mutants of grid/cubic.py, loaded in-process (never written to /repo)
+
+MUTANTS = [
+    # (name, family, old text, new text)
+    ("i2c-stride-swap", "layout", "n_1d, n_2d = self.shape[2], self.shape[1] * self.shape[2]", "n_1d, n_2d = self.shape[1], self.shape[1] * self.shape[2]"),
+    ("c2i-stride-off-by-one", "layout", "strides[i] = strides[i + 1] * self.shape[i + 1]", "strides[i] = strides[i + 1] * self.shape[i]"),
+    ("uniform-2d-reshape-C", "layout", 'coords = coords.reshape(2, -1, order="F")', "coords = coords.reshape(2, -1)"),
+    ("uniform-3d-no-swapaxes", "layout", "coords = np.swapaxes(coords, 1, 2)", "coords = coords"),
+    ("uniform-axes-transposed", "layout", "points = coords.T.dot(self._axes) + origin", "points = coords.T.dot(self._axes.T) + origin"),
+    ("tensor-kron-order", "layout", "weights = np.kron(np.kron(oned_x.weights, oned_y.weights), oned_z.weights)",
+     "weights = np.kron(np.kron(oned_z.weights, oned_y.weights), oned_x.weights)"),
+    ("tensor-meshgrid-xy", "layout", 'oned_z.points,\n                        indexing="ij",', 'oned_z.points,\n                        indexing="xy",'),
+    ("along-axes-y-index", "layout", "coords_y = [self.coordinates_to_index((0, j, 0)) for j in range(self.shape[1])]",
+     "coords_y = [self.coordinates_to_index((0, 0, j)) for j in range(self.shape[1])]"),
+    ("trapezoid-no-plus-one", "weights", "numpnt = np.prod(shape + 1.0)\n            weights = np.full", "numpnt = np.prod(shape + 0.0)\n            weights = np.full"),
+    ("alternative-factor", "weights", "factor = np.prod((shape - 1) / shape)", "factor = np.prod(shape / (shape + 1))"),
+    ("fourier1-sine-argument", "weights", "sin_dir = np.sin(grid_dir_2d * np.pi / (shape[index] + 1.0))", "sin_dir = np.sin(grid_dir_2d * np.pi / (shape[index] + 0.0))"),
+    ("volume-2d-no-abs", "weights", "return np.abs(volume)", "return volume"),
+    ("box-floor", "from_molecule", "shape = np.ceil(shape)", "shape = np.floor(shape)"),
+    ("box-single-extension", "from_molecule", "+ 2.0 * extension) / spacing", "+ 1.0 * extension) / spacing"),
+    ("box-origin-shape-minus-one", "from_molecule", "origin = com - np.dot((0.5 * shape), axes)", "origin = com - np.dot((0.5 * (shape - 1)), axes)"),
+    ("closest-floor", "closest_point", "coord = np.rint(coord)", "coord = np.floor(coord)"),
+    ("closest-origin-ceil", "closest_point", "coord = np.floor(coord)", "coord = np.ceil(coord)"),
+    ("cube-five-per-line", "cube", "num_chunks = 6", "num_chunks = 5"),
+    ("cube-angstrom-origin-not-scaled", "cube", "                origin *= ANGSTROM_TO_BOHR\n", ""),
+    ("cube-angstrom-atoms-not-scaled", "cube", "                coordinates *= ANGSTROM_TO_BOHR\n", ""),
+    ("cube-angstrom-inverse-factor", "cube", "axes *= ANGSTROM_TO_BOHR", "axes /= ANGSTROM_TO_BOHR"),
+    ("cube-data-precision", "cube", '" {:12.5E}"', '" {:12.4E}"'),
+    ("cube-pseudo-numbers-dropped", "cube", "for i, q, (x, y, z) in zip(atnums, pseudo_numbers, atcoords):", "for i, q, (x, y, z) in zip(atnums, atnums.astype(float), atcoords):"),
+    ("interp-nu_y-ignored", "interpolation", "            )(y, nu_y)", "            )(y, 0)"),
+    ("interp-z-slice-shifted", "interpolation", "values[small_index:large_index],", "values[small_index + 1:large_index + 1],"),
+    ("interp-x-nodes-stride", "interpolation", "self.points[np.arange(1, self.shape[0] - 2) * self.shape[1] * self.shape[2], 0],",
+     "self.points[np.arange(1, self.shape[0] - 2) * self.shape[2] * self.shape[2], 0],"),
+    ("interp-bell-order", "interpolation", "bell(deriv_var, i, sympy_symbols).evalf(subs=symbol_values)\n                                    for i in range(1, deriv_var + 1)",
+     "bell(deriv_var, i, sympy_symbols).evalf(subs=symbol_values)\n                                    for i in range(1, deriv_var)"),
+    ("interp-log-second-derivative-sign", "interpolation", "return interpolated * np.array(bell_derivs)", "return interpolated * np.abs(np.array(bell_derivs))"),
+    ("interp-linear-nearest", "interpolation", "interpolate = RegularGridInterpolator((x, y, z), values, method=method)",
+     'interpolate = RegularGridInterpolator((x, y, z), values, method="nearest")'),
+]
+
+
+def _load_mutant(old, new):
+    import importlib.util
+    import sys
+    src = Path("/repo/src/grid/cubic.py").read_text()
+    if src.count(old) < 1:
+        raise tlc.MachineryError(f"mutant anchor not found: {old!r}")
+    code = src.replace(old, new)
+    spec = importlib.util.spec_from_loader("grid._c13_mutant", loader=None)
+    mod = importlib.util.module_from_spec(spec)
+    mod.__package__ = "grid"
+    mod.__file__ = "/verif/gen/C13-selftest/cubic_mutant.py"
+    sys.modules["grid._c13_mutant"] = mod
+    exec(compile(code, mod.__file__, "exec"), mod.__dict__)
+    return mod
+
+
+def selftest(tier: str = "quick") -> int:
+    """Each mutant must be reported as a violation by the family it belongs to."""
+    import grid.cubic as real
+    fams = {"layout": _family_layout, "weights": _family_weights, "from_molecule": _family_box,
+            "closest_point": _family_closest, "cube": _family_cube, "interpolation": _family_interp}
+    only = os.environ.get("C13_MUTANTS")
+    killed, missed = [], []
+    for name, fam, old, new in MUTANTS:
+        if only and name not in only.split(","):
+            continue
+        mod = _load_mutant(old, new)
+        saved = {k: getattr(real, k) for k in ("UniformGrid", "Tensor1DGrids", "_HyperRectangleGrid")}
+        for k in saved:
+            setattr(real, k, getattr(mod, k))
+        try:
+            rep = Report(PROP, tier, "model_checking")
+            wd = tlc.scratch(f"{PROP}-selftest")
+            fams[fam](rep, tier, wd)
+            fresh = [v for v in rep.violations if rep._match_known(v["key"]) is None]
+        finally:
+            for k, v in saved.items():
+                setattr(real, k, v)
+        (killed if fresh else missed).append(name)
+        print(f"mutant {name:36s} [{fam}] -> {'VIOLATION x%d, e.g. %s' % (len(fresh), fresh[0]['key'][:110]) if fresh else 'MISSED'}", flush=True)
+    print(f"selftest: {len(killed)} killed, {len(missed)} missed {missed}")
+    return 0 if not missed else 1
